@@ -342,3 +342,37 @@ def ciExtracted (c : CIn) (neg : Bool) (t : Rat) : Out :=
   interpCore c.mode ks (finFill (firstVal ks)) (finFill (lastVal ks)) t
 
 end RtcVerif.C15
+
+namespace RtcVerif.C15
+open RtcVerif RtcVerif.Interp
+
+/-! ### reference forms used by the source-to-Lean translation (`harness/translate_c15.py`) -/
+
+/-- first consecutive pair `(l[i], l[i+1])` with `P l[i] l[i+1]` (a `for i in range(len(l))` loop
+    that returns at the first hit) -/
+def scanPairs (P : Rat → Rat → Bool) : List Rat → Option (Rat × Rat)
+  | a :: b :: rest => if P a b then some (a, b) else scanPairs P (b :: rest)
+  | _ => none
+
+/-- the last part of `__states_times_in` ("Collect time stamps and states"): window knots of the
+    history and of the state, the two optional end points, concatenated in this order -/
+def assemble (p : Prob) (name : String) (a b : Rat) (hist state : Knots) : Option Knots := do
+  let inner := inWindow a b hist ++ inWindow a b state
+  let x0 ← endKnot p name inner a
+  let xf ← endKnot p name inner b
+  some (x0 ++ inner ++ xf)
+
+/-- element-wise vector operations (CasADi / NumPy broadcasting on equally long vectors) -/
+def vadd (u v : List Rat) : List Rat := List.zipWith (· + ·) u v
+def vsub (u v : List Rat) : List Rat := List.zipWith (· - ·) u v
+def vmul (u v : List Rat) : List Rat := List.zipWith (· * ·) u v
+def vscale (c : Rat) (u : List Rat) : List Rat := u.map (c * ·)
+
+/-- the trapezoid rule in the vector form `sum1(0.5 * (x[:-1] + x[1:]) * (t[1:] - t[:-1]))` -/
+def trapzVec (ks : Knots) : Rat :=
+  if ks.length > 1 then
+    (vmul (vscale (1 / 2) (vadd (ks.map (·.2)).dropLast (ks.map (·.2)).tail))
+      (vsub (ks.map (·.1)).tail (ks.map (·.1)).dropLast)).sum
+  else 0
+
+end RtcVerif.C15
